@@ -23,7 +23,10 @@ CONSTANTS MaxLen, OpLen, Pick     \* arrays of <= OpLen elements are followed by
 Pool == << I(3), I(25), Num(15, 1, 16), Num(1, 1, 20), Num(9, 1, 17), Num(1, 1, 31), Num(1, 1, 53), Num(1, 1, 70),
            Num(1, 1, -1), Num(3, 1, -4), Num(1, 1, -10), Num(1, 1, -14), Num(1, 1, -20),
            I(-3), Num(-1, 1, 20), Num(-1, 1, -14), Zero >>
-Partner(i) == Pool[(i % Len(Pool)) + 1]
+\* the second number next to Pool[i]: one whose form sorts the other way round than its value where the
+\* pool has one (every integer and every negative; plain decimal fractions of (0, 1) order like their values)
+PartnerIdx == <<2, 1, 4, 3, 2, 1, 8, 7, 10, 9, 12, 13, 12, 16, 16, 14, 1>>
+Partner(i) == Pool[PartnerIdx[i]]
 
 Form(v) == StrOf(v)
 Derived(t) == {SubSeq(t, 1, k) : k \in {1, 2, 3, Len(t) - 1} \cap 1..(Len(t) - 1)} \cup {t, t \o <<"0">>, t \o <<" ">>}
